@@ -655,11 +655,12 @@ def option_edges(fn, local):
 
 def dead_ends(fn, start, avoid=()):
     """Blocks reachable from `start` (not passing `avoid`) that end the function abnormally
-    (diverging call, unreachable): places where the function refuses by panicking."""
+    (diverging call, abort): places where the function refuses by panicking.  A bare `unreachable` terminator is not one: it is
+    the compiler's own otherwise-arm of an exhaustive `match` on an enum (never executed); `unreachable!()` is a diverging call."""
     out = []
     for b in fn.reachable(start, avoid=avoid):
         t = fn.blocks[b]["term"]
-        if t["t"] in ("unreachable", "abort") or (t["t"] == "call" and "to" not in t):
+        if t["t"] == "abort" or (t["t"] == "call" and "to" not in t):
             out.append(b)
     return sorted(out)
 
@@ -735,7 +736,22 @@ def _conflict_test(facts, ins, vec):
         return res, None
     ubb, ut = users[0]
     callee = ut.get("callee") or ""
-    if not re.search(SEARCH_ADAPTORS, callee) or callee.endswith("find_map"):
+    is_filter = bool(re.search(r"iter::Iterator::filter$", callee))
+    if is_filter:
+        # `for h in list.iter().filter(|h| h.versions.overlaps_with(new)) { refuse }`: the loop body runs for exactly the elements
+        # the predicate holds for, every element being tested on the way -- hit = the Some edge of the filtered iterator's next(),
+        # clear = its None edge (all elements tested, none overlapped)
+        for nbb, nt in ins.live_calls(r"iter::Iterator::next$"):
+            q = access_path(ins, nt["args"][0], VALUE_PRESERVING + ITER_ADAPT)
+            if q.call() and q.call()[2] is ut and not q.path:
+                sp = None
+                for sbb, info, tg in enum_switches(ins, r"^std::option::Option$"):
+                    q2 = access_path(ins, info["place"], VALUE_PRESERVING)
+                    if q2.call() and q2.call()[2] is nt and not q2.path:
+                        sp = sbb
+                if sp is not None:
+                    res["hit"], res["clear"] = (sp, ins.switch_target(sp, 1)), (sp, ins.switch_target(sp, 0))
+    if not is_filter and (not re.search(SEARCH_ADAPTORS, callee) or callee.endswith("find_map")):
         res["detail"] += " handed to %s, which is not a search over every element" % callee.split("::")[-1]
         res["elem_ok"] = False
         return res, None
@@ -743,7 +759,9 @@ def _conflict_test(facts, ins, vec):
     res["iter_ok"] = pit.root[0] == vec.root[0] and pit.root_local() == vec.root_local() and pit.path == vec.path and \
         not [c for c in pit.call_names() if not re.search(r"Deref::deref$|DerefMut::deref_mut$|slice::<impl \[T\]>::iter$|iter::IntoIterator::into_iter$|vec::Vec::<T, A>::(iter|as_slice|as_mut_slice)$|Clone::clone$|AsRef::as_ref$|Borrow::borrow$", c)]
     res["detail"] += " handed to %s over %r" % (callee.split("::")[-1], pit)
-    if callee.endswith("::any"):
+    if is_filter:
+        pass
+    elif callee.endswith("::any"):
         sw = bool_switch_of_call(ins, ubb, ut)
         if sw is not None:
             res["hit"], res["clear"] = (sw[0], sw[1]), (sw[0], sw[2])
